@@ -561,3 +561,6 @@ UNITS.append(Unit("C15", "jsonargparse._link_arguments:ActionLink.apply_parsing_
 # the resolvers of source / target keys used by ActionLink.__init__, link_arguments itself, and the nested links handed to subclass parsers
 from contracts.link_helpers import find_parent_or_child_actions_unit, find_subclass_action_or_class_group_unit, get_nested_links_unit, link_arguments_unit  # noqa: E402
 UNITS += [find_parent_or_child_actions_unit("C15"), find_subclass_action_or_class_group_unit("C15"), link_arguments_unit("C15"), get_nested_links_unit("C15")]
+
+from contracts.share import carried as _carried  # noqa: E402
+UNITS += _carried("C15")
